@@ -90,6 +90,9 @@ func (fv *FnV) doCall(st *State, ins ssa.Instruction, cc *ssa.CallCommon, pos to
 		if _, ok := fv.g.modsets[callee]; ok {
 			return fv.moduleCall(st, callee, cc.Args, nil, pos)
 		}
+		if err := fv.libAtCall(st, callee, cc, pos); err != nil {
+			return nil, err
+		}
 		return fv.libCall(st, callee, cc, pos)
 	case *ssa.MakeClosure:
 		f := callee.Fn.(*ssa.Function)
@@ -951,4 +954,36 @@ func (fv *FnV) hitAtCall(cl *Clause) {
 		fv.atCallHit = map[*Clause]bool{}
 	}
 	fv.atCallHit[cl] = true
+}
+
+// libAtCall: at-call assertions on a library callee (named by its bare function name, e.g. ParseFloat).
+func (fv *FnV) libAtCall(st *State, callee *ssa.Function, cc *ssa.CallCommon, pos token.Pos) error {
+	if fv.k == nil || len(fv.k.CallAsserts) == 0 {
+		return nil
+	}
+	name := callee.Name()
+	site := fv.siteText(pos, "call")
+	var atCall []*Clause
+	for key, list := range fv.k.CallAsserts {
+		if key == name || (strings.HasPrefix(key, name+":") && strings.Contains(site, strings.TrimPrefix(key, name+":"))) {
+			atCall = append(atCall, list...)
+		}
+	}
+	sort.Slice(atCall, func(i, j int) bool { return atCall[i].Label < atCall[j].Label })
+	for _, cl := range atCall {
+		fv.hitAtCall(cl)
+		env := fv.contractEnv(st, fv.entry, nil)
+		if li := fv.innermostLoop(); li != nil {
+			env.loop = li
+		}
+		for i, a := range cc.Args {
+			env.vars[fmt.Sprintf("arg%d", i)] = CVal{T: fv.term(fv.val(a)), S: fv.g.sortOf(a.Type()), Typ: a.Type()}
+		}
+		t, err := env.evalBool(cl.Text)
+		if err != nil {
+			return fmt.Errorf("%s: at-call %s assert %s: %v", fv.name, name, cl.Label, err)
+		}
+		fv.emit(st, "A", name+"."+cl.Label, cl.Props, t, "holds just before the call of "+callee.String()+": "+cl.Text, pos)
+	}
+	return nil
 }
